@@ -205,3 +205,24 @@ def add_eps30(x):
 def outer_body_any(*xs):
     """Function-body context for an arbitrary callable (C11 context sweep): SITE_CALL["any"] is the body."""
     return SITE_CALL["any"](*xs)
+
+
+# C14: a function body that calls three other function domains (its opset imports are collected from the body)
+@onnx_function
+def fn_scale(x):
+    return x * 2.0
+
+
+@onnx_function
+def fn_shift(x):
+    return x + 1.0
+
+
+@onnx_function
+def fn_squash(x):
+    return jnp.tanh(x)
+
+
+@onnx_function
+def fn_encoder(x):
+    return fn_squash(fn_shift(fn_scale(x))) + fn_scale(x)
